@@ -60,7 +60,7 @@ def lib():
     return L
 
 
-def reset_frame_ids():
+def reset_frame_ids(start=0):
     """the header frame-id counter is the library's only process-wide state"""
     L = lib()
-    setattr(L.Header, "_RF24NetworkHeader__next_id", 0)
+    setattr(L.Header, "_RF24NetworkHeader__next_id", start & 0xFFFF)
